@@ -24,6 +24,8 @@ package main
 import (
 	"bufio"
 	"bytes"
+	"crypto/tls"
+	"crypto/x509"
 	"encoding/json"
 	"fmt"
 	"math/rand"
@@ -40,6 +42,7 @@ import (
 
 	"github.com/google/martian/v3"
 	mlog "github.com/google/martian/v3/log"
+	"github.com/google/martian/v3/mitm"
 	"github.com/google/martian/v3/trafficshape"
 
 	"verifharness/internal/shapex"
@@ -86,6 +89,7 @@ func plan(tier string, seed int64) []vh.Batch {
 		add("thr", 4, false)
 		add("px", 8, false)
 		add("share", 2, false)
+		add("mitm", 2, false)
 		// many short batches: every configuration request leaves the drain
 		// goroutines of its per-shape global buckets behind for the life of the
 		// process, and the census dumps all goroutines
@@ -97,6 +101,7 @@ func plan(tier string, seed int64) []vh.Batch {
 		add("thr", 4, false)
 		add("px", 5, false)
 		add("share", 1, false)
+		add("mitm", 1, false)
 		add("dir", 2, false)
 		add("cfg", 1, false)
 		add("leak", 1, false)
@@ -425,6 +430,7 @@ type obs struct {
 	NoResp    bool // connection ended before any byte of this response
 	DiffAt    int64
 	BytesOK   bool
+	MITM      bool
 	Stalled   bool // no further byte will arrive: the system is quiescent
 	TSend     time.Time
 	TDone     time.Time
@@ -544,7 +550,11 @@ func judge(r *vh.Run, c interface{}, st *state) {
 		case o.Closed:
 			outcome = "complete+closed"
 		}
-		r.Class(fmt.Sprintf("%s|%s|rs=%s|sz=%s|conc=%d|%s|%s", o.Driver, sh.Kinds(), rangeStartClass(o, sh), sizeBucket(o.L), o.Conc, o.ctx(), outcome))
+		drv := o.Driver
+		if o.MITM {
+			drv += "+mitm"
+		}
+		r.Class(fmt.Sprintf("%s|%s|rs=%s|sz=%s|conc=%d|%s|%s", drv, sh.Kinds(), rangeStartClass(o, sh), sizeBucket(o.L), o.Conc, o.ctx(), outcome))
 		r.Count("responses", 1)
 		r.Count("body_bytes_compared", o.Delivered)
 		match := "matching"
@@ -748,7 +758,7 @@ func judge(r *vh.Run, c interface{}, st *state) {
 
 // census waits (quiescence-decided) until the drain goroutines created since
 // pre are no more than what the configuration requests alone account for.
-func census(r *vh.Run, c interface{}, pre map[string]bool, allowed int, conns int, skip *bool) {
+func census(r *vh.Run, c interface{}, pre map[string]bool, allowed int, conns int, skip *bool, withMITM bool) {
 	if *skip {
 		r.Count("census_skipped_after_violation", 1)
 		return
@@ -763,14 +773,18 @@ func census(r *vh.Run, c interface{}, pre map[string]bool, allowed int, conns in
 	r.Eval(1)
 	switch out {
 	case vh.Happened:
-		r.Class("census|released")
+		r.Class(fmt.Sprintf("census|released|mitm=%v", withMITM))
 		r.Count("census_ok", 1)
 	case vh.Stuck:
 		n := int(atomic.LoadInt64(&last))
-		r.Class("census|leaked")
-		r.ViolationCase(c, "C18:release:bucket-goroutines",
+		r.Class(fmt.Sprintf("census|leaked|mitm=%v", withMITM))
+		sig := "C18:release:bucket-goroutines"
+		if withMITM {
+			sig += ":mitm"
+		}
+		r.ViolationCase(c, sig,
 			fmt.Sprintf("after closing all %d shaped connections %d trafficshape.(*Bucket).loop goroutines created during the scenario remain, %d more than the configuration requests alone create (%d); system quiescent", conns, n, n-allowed, allowed),
-			map[string]interface{}{"remaining": n, "allowed": allowed, "connections": conns, "fingerprint_head": head(condense(fp), 3000)})
+			map[string]interface{}{"remaining": n, "allowed": allowed, "connections": conns, "mitm": withMITM, "fingerprint_head": head(condense(fp), 3000)})
 		*skip = true
 	default:
 		r.SetCase(c)
@@ -818,7 +832,39 @@ type rig struct {
 	addr string
 }
 
-func newRig() (*rig, error) {
+// The MITM authority is created once per child.
+var (
+	caOnce sync.Once
+	caCfg  *mitm.Config
+	caPool *x509.CertPool
+	caErr  error
+)
+
+func mitmAuthority() (*mitm.Config, *x509.CertPool, error) {
+	caOnce.Do(func() {
+		ca, priv, err := mitm.NewAuthority("verif C18 CA", "verif", 24*time.Hour)
+		if err != nil {
+			caErr = err
+			return
+		}
+		caCfg, caErr = mitm.NewConfig(ca, priv)
+		caPool = x509.NewCertPool()
+		caPool.AddCert(ca)
+	})
+	return caCfg, caPool, caErr
+}
+
+// plainUpstream is harness glue for MITM scenarios: the decrypted request is
+// fetched from the (plain HTTP, in-memory) origin, so its URL is the same
+// http://origin.test/... string the shapes are written for.
+var plainUpstream = martian.RequestModifierFunc(func(req *http.Request) error {
+	if req.Method != "CONNECT" {
+		req.URL.Scheme = "http"
+	}
+	return nil
+})
+
+func newRig(withMITM bool) (*rig, error) {
 	l, err := net.Listen("tcp", "127.0.0.1:0")
 	if err != nil {
 		return nil, err
@@ -829,6 +875,15 @@ func newRig() (*rig, error) {
 	p.SetDownstreamProxy(nil)
 	p.SetTimeout(120 * time.Second)
 	p.SetDial(func(network, addr string) (net.Conn, error) { return o.l.Dial() })
+	if withMITM {
+		mc, _, err := mitmAuthority()
+		if err != nil {
+			l.Close()
+			return nil, err
+		}
+		p.SetMITM(mc)
+		p.SetRequestModifier(plainUpstream)
+	}
 	go p.Serve(tsl)
 	return &rig{tsl: tsl, h: trafficshape.NewHandler(tsl), p: p, addr: l.Addr().String()}, nil
 }
@@ -869,6 +924,7 @@ func (q reqSpec) url() string {
 
 type cconn struct {
 	id   int
+	mitm bool
 	c    net.Conn
 	br   *bufio.Reader
 	gen  int
@@ -878,6 +934,33 @@ type cconn struct {
 }
 
 const ioWatchdog = 100 * time.Second
+
+// tunnel issues CONNECT origin.test:443, completes a TLS handshake with the
+// MITM proxy (certificate verified against the child's CA) and switches the
+// connection to the decrypted stream.
+func (cc *cconn) tunnel(pool *x509.CertPool) error {
+	cc.c.SetDeadline(time.Now().Add(ioWatchdog))
+	if _, err := cc.c.Write([]byte("CONNECT origin.test:443 HTTP/1.1\r\nHost: origin.test:443\r\n\r\n")); err != nil {
+		return err
+	}
+	res, err := http.ReadResponse(cc.br, &http.Request{Method: "CONNECT"})
+	if err != nil {
+		return err
+	}
+	if res.StatusCode != 200 {
+		return fmt.Errorf("CONNECT answered %d", res.StatusCode)
+	}
+	if cc.br.Buffered() != 0 {
+		return fmt.Errorf("%d unexpected bytes after the CONNECT response", cc.br.Buffered())
+	}
+	tc := tls.Client(cc.c, &tls.Config{ServerName: "origin.test", RootCAs: pool})
+	if err := tc.Handshake(); err != nil {
+		return err
+	}
+	cc.c = tc
+	cc.br = bufio.NewReaderSize(tc, 64<<10)
+	return nil
+}
 
 var errWatchdog = fmt.Errorf("harness watchdog")
 
@@ -906,7 +989,12 @@ func (cc *cconn) do(st *state, q reqSpec, conc int, headSeen func()) (*obs, erro
 	o := &obs{Driver: "proxy", Conn: cc.id, Seq: cc.seq, Slot: q.Slot, S: s, L: l, Pad: q.Pad, ConnGen: cc.gen, Conc: conc, Ranged: ranged, BytesOK: true}
 	cc.seq++
 	var sb strings.Builder
-	sb.WriteString("GET " + q.url() + " HTTP/1.1\r\nHost: origin.test\r\n")
+	target := q.url()
+	if cc.mitm {
+		target = strings.TrimPrefix(target, "http://origin.test") // origin-form inside the tunnel
+	}
+	o.MITM = cc.mitm
+	sb.WriteString("GET " + target + " HTTP/1.1\r\nHost: origin.test\r\n")
 	if ranged {
 		if q.E < 0 {
 			fmt.Fprintf(&sb, "Range: bytes=%d-\r\n", q.S)
@@ -1056,6 +1144,7 @@ type phase struct {
 type scenario struct {
 	Profile string
 	Variant string
+	MITM    bool // every client tunnels through CONNECT and a real TLS handshake (proxy in MITM mode)
 	Res     []int64
 	Phases  []phase
 }
@@ -1144,6 +1233,7 @@ func genScenario(r *vh.Run, sc scenCase) *scenario {
 	if sc.Profile == "leak" {
 		s.Variant = "plain"
 	}
+	s.MITM = sc.Profile == "mitm"
 	closeAll1 := (s.Variant == "rejected" || s.Variant == "mid-rejected") && rng.Intn(2) == 0
 	cfg1 := shapex.GenValid(rng, shapex.GenOpts{Gen: 1, Slots: slots, Res: s.Res, Halts: true, MaxHalt: maxHalt, Closes: sc.Profile != "leak", Throttle: "loose", Global: true, CloseAll: closeAll1})
 	allOffsets := func(cfgs ...*shapex.Config) map[int][]int64 {
@@ -1358,7 +1448,7 @@ func (s *scenario) bodies() []string {
 func runScenario(r *vh.Run, c scenCase, s *scenario, skipCensus *bool) {
 	allowed := twinCount(s.bodies())
 	pre := loopIDs()
-	g, err := newRig()
+	g, err := newRig(s.MITM)
 	if err != nil {
 		r.SetCase(c)
 		r.Inconclusive("cannot listen: "+err.Error(), nil)
@@ -1386,11 +1476,28 @@ func runScenario(r *vh.Run, c scenCase, s *scenario, skipCensus *bool) {
 				watchdog = true
 				break
 			}
-			conns = append(conns, &cconn{id: len(conns), c: cn, br: bufio.NewReaderSize(cn, 64<<10), gen: gen})
+			conns = append(conns, &cconn{id: len(conns), mitm: s.MITM, c: cn, br: bufio.NewReaderSize(cn, 64<<10), gen: gen})
 			totalConns++
 		}
 		if watchdog {
 			break
+		}
+		if s.MITM {
+			// CONNECT + real TLS handshake now, before anything else happens: the
+			// proxy creates the shaped wrapper of the decrypted connection (and
+			// stamps it with the configuration in force) when it upgrades the tunnel.
+			_, pool, _ := mitmAuthority()
+			for _, cc := range conns[len(conns)-ph.Open:] {
+				if err := cc.tunnel(pool); err != nil {
+					r.SetCase(c)
+					r.Inconclusive("CONNECT/TLS through the MITM proxy failed: "+err.Error(), nil)
+					watchdog = true
+					break
+				}
+			}
+			if watchdog {
+				break
+			}
 		}
 		// A connection belongs to the configuration generation in force when
 		// the proxy *accepted* it (that is when the listener stamps it and
@@ -1499,7 +1606,7 @@ func runScenario(r *vh.Run, c scenCase, s *scenario, skipCensus *bool) {
 		go g.close()
 		return
 	default:
-		census(r, c, pre, allowed, totalConns, skipCensus)
+		census(r, c, pre, allowed, totalConns, skipCensus, s.MITM)
 		g.close()
 	}
 	if st.aborted != "" && strings.HasPrefix(s.Variant, "mid-") {
@@ -1774,7 +1881,7 @@ func runDirect(r *vh.Run, c scenCase, d *dscenario, skipCensus *bool) {
 	for _, dc := range dcs {
 		dc.cl.Close()
 	}
-	census(r, c, pre, allowed, len(dcs), skipCensus)
+	census(r, c, pre, allowed, len(dcs), skipCensus, false)
 	tsl.Close()
 	if st.aborted != "" {
 		r.Count("scenarios_not_judged_after_abort", 1)
@@ -1903,6 +2010,8 @@ func run(r *vh.Run, batch string) {
 		n = r.Pick(6, 20)
 	case "share":
 		n = r.Pick(5, 40)
+	case "mitm":
+		n = r.Pick(8, 60)
 	}
 	for i := 0; i < n; i++ {
 		c := scenCase{Kind: "scenario", Profile: kind, Stream: stream, Idx: i}
